@@ -22,7 +22,7 @@
 (*             only (the harness feeds parser.TransformRegExp + regexp.      *)
 (*             Compile directly)                                             *)
 EXTENDS NumText, Json, TLC, SequencesExt, Randomization, C10Str
-CONSTANTS OpenDev, Fams, Tier, NSel, NPat
+CONSTANTS OpenDev, Fams, Tier, NSel, NStrm, NPat
 VARIABLES blk, cs
 
 S == INSTANCE RegExpSpec WITH Dev <- {}
@@ -148,9 +148,9 @@ Cls(d, src) ==
 (* its successors are the cases of the block.                                *)
 K == 64
 None == [fam |-> "none"]
-Pick(k, T) == IF NSel = 0 \/ k >= Cardinality(T) THEN T ELSE RandomSubset(k, T)
+Pick(k, T) == IF k = 0 \/ k >= Cardinality(T) THEN T ELSE RandomSubset(k, T)
 Subjects(fam, src) ==                            \* the subjects of one exec case
-    LET ws == SetToSeq(Pick(NSel, 1..NSubj))
+    LET ws == SetToSeq(Pick(IF fam = "f1" THEN 2 * NSel ELSE NSel, 1..NSubj))
         base == [i \in 1..Len(ws) |-> SubjSeq[ws[i]]]
     IN  IF fam = "f1" THEN base \o Special1Seq ELSE IF fam = "esc" THEN SpecialSeq \o <<src>> ELSE base
 StrmSubj == SubjSeq \o <<<<233, 97>>, <<97, 233, 97>>, <<233>>, <<20013, 97, 233>>>>      \* + e-acute, U+4E2D: byte and unit offsets differ
@@ -190,7 +190,7 @@ Next ==
        THEN \E j \in {i \in 1..Len(PatSeq(fam)) : i % K = b - 1}, fl \in {<<>>, <<103>>, <<103, 105>>} :
                LET P == S!RxParse(PatSeq(fam)[j]) IN
                /\ P.ok /\ ~S!RxUnsupported(P)
-               /\ \E si \in Pick(NSel, 1..Len(StrmSubj)), o \in StrmOps(P.nc), li \in {IntV(0), IntV(1)} :
+               /\ \E si \in Pick(NStrm, 1..Len(StrmSubj)), o \in StrmOps(P.nc), li \in {IntV(0), IntV(1)} :
                      cs' = o @@ [fam |-> "strm", form |-> IF PatSeq(fam)[j] = <<>> \/ si % 2 = 0 THEN "ctor" ELSE "lit",
                                  src |-> PatSeq(fam)[j], flags |-> fl, s |-> StrmSubj[si], li |-> li]
        ELSE \* "xlate"
